@@ -402,9 +402,6 @@ func enumerate(t *rapid.T, h *history) {
 // write batch of hash preimages (a storage-heavy contract), with every write
 // step of the flush failing in turn.
 func TestBigStateFlush(t *testing.T) {
-	if !ev.Thorough() && ev.Seed()%2 == 0 {
-		t.Skip("quick tier: runs for odd seeds only")
-	}
 	ev.Check(t, ev.N(1, 16), func(t *rapid.T) {
 		nc := gen.ConfigByName("all-at-0")
 		g := gen.Genesis(nc.Config, 400_000_000)
